@@ -145,6 +145,12 @@ STMTS = {
     "nil-slice-compare": "var ns []uint64\nif ns == nil {\n\tacc += 1\n}",
     "min-builtin": "acc += min(a, 3)",
     "clear-builtin": "mc := make(map[uint64]uint64)\nmc[1] = 1\nclear(mc)\nacc += uint64(len(mc))",
+    "string-of-byte": "sb := string(byte(a%26 + 65))\nacc += uint64(len(sb)) + uint64(sb[0])",
+    "string-of-uint64": "su := string(rune(a%26 + 65))\nacc += uint64(len(su))",
+    "string-of-named-string": "type NS string\nvar ns NS = \"ab\"\nacc += uint64(len(string(ns)))",
+    "bytes-of-named-string": "type NS string\nvar ns NS = \"ab\"\nacc += uint64(len([]byte(ns)))",
+    "local-closure-named-cap": "cap := func(s []uint64) uint64 {\n\treturn 77\n}\ncs := make([]uint64, 2)\nacc += cap(cs)",
+    "local-type-named-uint32": "type uint32 uint64\nvar big uint64 = 1 << 40\nacc += uint64(uint32(big))",
     "conv-via-int64": "acc += uint64(int64(a))",
     "conv-to-uint16": "acc += uint64(uint16(a))",
     "bool-to-var-opassign": "var bo uint64 = 6\nbo |= 9\nbo &= 12\nbo ^= 5\nacc += bo",
@@ -168,6 +174,8 @@ SHAPES = {
 
 # id -> (extra declarations, signature and body of `c_<id>`): constructs at declaration level
 DECLS = {
+    "param-named-len": ("func callLen_HOLE(len func([]uint64) uint64) uint64 {\n\ts := make([]uint64, 2)\n\treturn len(s)\n}\n\nfunc seven_HOLE(s []uint64) uint64 {\n\treturn 7\n}\n",
+                        "(a uint64, b uint64) uint64 {\n\treturn callLen_HOLE(seven_HOLE) + a\n}"),
     "named-results": ("", "(a uint64, b uint64) (r uint64) {\n\tr = a + 1\n\treturn\n}"),
     "named-results-explicit": ("", "(a uint64, b uint64) (r uint64) {\n\tr = a + 1\n\treturn r + b\n}"),
     "variadic-declared": ("", "(a uint64, b uint64) uint64 {\n\treturn sum3(a, b)\n}"),
